@@ -554,3 +554,10 @@ PROPS['C02']['quick_drop'] = ['c05_op_register_occupied_small', 'c05_op_unregist
 PROPS['C01']['quick_drop'] = ['c05_op_register_occupied_small', 'c05_op_unregister_signal_small']
 for _o in ('C05.REG-APPEND', 'C05.REG-OK', 'C02.ID-MONO', 'C02.HIST-ONLY-SIG'):
     OBLIGATIONS[_o]['tier'] = 'thorough'
+
+UNITS['native_c05_hist'] = dict(name='c05_history', engine='static', module='native_unit', entry='run_native', source=_V + '/native/c05_history.rs',
+                                deps='libc = "0.2"\nsignal-hook-registry = { path = "../signal-hook-registry" }\n')
+obl('C05.NATIVE-HISTORY', 'registry public API (register, unregister, dispatcher via raise) - native stand-in', '421 API steps on two signals (targeted: remove newest / oldest, re-register, stale id; then fixed-seed random) agree with the reference model: ids unique, unregister true iff live, deliveries run exactly the live actions of the signal in registration order', kind='bounded(native execution, one deterministic history of 421 steps)', also=['C02'])
+for _p in ('C05', 'C02'):
+    PROPS[_p]['units'] = PROPS[_p]['units'] + ['native_c05_hist']
+    PROPS[_p]['trusted'] = PROPS[_p]['trusted'] + ['native stand-in C05.NATIVE-HISTORY is an execution of one bounded history, not a proof; it exists for trees whose restructured code is beyond CBMC\'s budget and Verus\' anchors']
